@@ -21,6 +21,10 @@ pub enum Case {
     /// history independence: ONE spline object solved several times in a row (same sites, different end
     /// conditions; then different sites) must each time equal a fresh object solved once
     Resolve { k: usize, interior: Vec<(usize, usize)> },
+    /// long splines (many basis functions): integer knots 0..=m+1 with k-fold ends; order 2 interpolates at the
+    /// knots, order 3 at the ends and span mid points, order 4 in the natural layout (repeated end sites,
+    /// second-derivative conditions)
+    Long { k: usize, m: usize },
 }
 
 fn inverse_exact(b: &[Vec<Rat>]) -> Option<Vec<Vec<Rat>>> {
@@ -322,6 +326,175 @@ pub fn check(case: &Case, idx: u64, acc: &mut Acc) {
                 acc.sample(|| json!({"k": k, "t": t, "tau": tau_f, "left_n": left_n, "right_n": right_n, "condition": cnd}));
             }
         }
+        Case::Long { k, m } => {
+            let (k, m) = (*k, *m);
+            let end = (m + 1) as f64;
+            let mut t = vec![0.0; k];
+            t.extend((1..=m).map(|j| j as f64));
+            t.extend(vec![end; k]);
+            let n = m + k;
+            let (tau, ln): (Vec<f64>, usize) = match k {
+                2 => ((0..=m + 1).map(|j| j as f64).collect(), 0),
+                3 => {
+                    let mut v = vec![0.0];
+                    v.extend((0..=m).map(|j| j as f64 + 0.5));
+                    v.push(end);
+                    (v, 0)
+                }
+                _ => {
+                    let mut v = vec![0.0, 0.0];
+                    v.extend((1..=m).map(|j| j as f64));
+                    v.extend([end, end]);
+                    (v, 2)
+                }
+            };
+            assert_eq!(tau.len(), n);
+            acc.nontrivial();
+            let mut pts: Vec<f64> = vec![];
+            for j in 0..=m {
+                for q in 0..4 {
+                    pts.push(j as f64 + 0.25 * q as f64);
+                }
+            }
+            pts.push(end);
+            // the collocation matrix row by row against the single-function evaluators
+            {
+                let sp = PPSpline::<f64>::new(k, t.clone(), None);
+                let b = sp.bsplmatrix(&tau, ln, ln);
+                for j in 0..n {
+                    let mut rowsum = 0.0;
+                    for i in 0..n {
+                        acc.eval();
+                        let want = if j == 0 || j == n - 1 {
+                            rateslib::splines::bspldnev_single_f64(&tau[j], i, &k, &t, ln, None)
+                        } else {
+                            rateslib::splines::bsplev_single_f64(&tau[j], i, &k, &t, None)
+                        };
+                        rowsum += b[[j, i]];
+                        if b[[j, i]].to_bits() != want.to_bits() && b[[j, i]] != want {
+                            acc.violate("long/collocation-matrix-entry", idx, cj(), json!({"row": j, "col": i, "site": tau[j], "want": want}), json!(b[[j, i]]));
+                            return;
+                        }
+                    }
+                    let want_sum = if (j == 0 || j == n - 1) && ln > 0 { 0.0 } else { 1.0 };
+                    if (rowsum - want_sum).abs() > 1e-9 {
+                        acc.violate("long/collocation-matrix-row-sum", idx, cj(), json!({"row": j, "site": tau[j], "want": want_sum}), json!(rowsum));
+                        return;
+                    }
+                }
+            }
+            // polynomial reproduction and generic data
+            let poly = |d: usize, mm: usize, x: f64| -> f64 {
+                if mm > d {
+                    return 0.0;
+                }
+                let mut c = 1.0;
+                for q in 0..mm {
+                    c *= (d - q) as f64;
+                }
+                c * (x / end).powi((d - mm) as i32) / end.powi(mm as i32)
+            };
+            for d in 0..k {
+                let y: Vec<f64> = (0..n).map(|j| poly(d, if j == 0 || j == n - 1 { ln } else { 0 }, tau[j])).collect();
+                let mut sp = PPSpline::<f64>::new(k, t.clone(), None);
+                acc.eval();
+                if sp.csolve(&tau, &y, ln, ln, false).is_err() {
+                    acc.violate("long/csolve/unexpected-error", idx, cj(), json!({"data": format!("(x/{})^{}", end, d)}), json!("Err"));
+                    return;
+                }
+                for x in pts.iter() {
+                    for mm in 0..k {
+                        acc.eval();
+                        let want = poly(d, mm, *x);
+                        match sp.ppdnev_single(x, mm) {
+                            Ok(got) if close_scaled(got, want, 1e-8, 1.0) => {}
+                            other => {
+                                acc.violate(&format!("long/polynomial-reproduction/m{}", mm.min(3)), idx, cj(), json!({"degree": d, "x": x, "m": mm, "want": want}), json!(format!("{:?}", other.ok())));
+                                return;
+                            }
+                        }
+                    }
+                }
+            }
+            let y: Vec<f64> = (0..n).map(|j| gen_rat(j).f() + 0.01 * j as f64).collect();
+            let names: Vec<String> = (0..n).map(|j| format!("y{}", j)).collect();
+            let mut sf = PPSpline::<f64>::new(k, t.clone(), None);
+            let mut sd = PPSpline::<Dual>::new(k, t.clone(), None);
+            let mut sd2 = PPSpline::<Dual2>::new(k, t.clone(), None);
+            let yd: Vec<Dual> = (0..n).map(|j| Dual::new(y[j], vec![names[j].clone()])).collect();
+            let yd2: Vec<Dual2> = (0..n).map(|j| Dual2::new(y[j], vec![names[j].clone()])).collect();
+            acc.evals_add(3);
+            if sf.csolve(&tau, &y, ln, ln, false).is_err() || sd.csolve(&tau, &yd, ln, ln, false).is_err() || sd2.csolve(&tau, &yd2, ln, ln, false).is_err() {
+                acc.violate("long/csolve/unexpected-error", idx, cj(), json!({"data": "generic"}), json!("Err"));
+                return;
+            }
+            // data reproduction and end conditions, in all three types; sensitivity at site j is the unit vector
+            for j in 0..n {
+                acc.evals_add(3);
+                let mm = if j == 0 || j == n - 1 { ln } else { 0 };
+                let (a, b, c) = (sf.ppdnev_single(&tau[j], mm), sd.ppdnev_single(&tau[j], mm), sd2.ppdnev_single(&tau[j], mm));
+                let ok = match (&a, &b, &c) {
+                    (Ok(a), Ok(b), Ok(c)) => {
+                        let gb = b.gradient1(names.clone());
+                        let gc = c.gradient1(names.clone());
+                        close_scaled(*a, y[j], 1e-8, 4.0)
+                            && close_scaled(b.real(), y[j], 1e-8, 4.0)
+                            && close_scaled(c.real(), y[j], 1e-8, 4.0)
+                            && (0..n).all(|i| close_scaled(gb[i], if i == j { 1.0 } else { 0.0 }, 1e-8, 1.0) && close_scaled(gc[i], if i == j { 1.0 } else { 0.0 }, 1e-8, 1.0))
+                            && c.gradient2(names.clone()).iter().all(|z| z.abs() < 1e-8)
+                    }
+                    _ => false,
+                };
+                if !ok {
+                    acc.violate(if mm == 0 { "long/interpolation" } else { "long/end-condition" }, idx, cj(), json!({"site": tau[j], "m": mm, "want": y[j]}), json!(format!("{:?} / {:?}", a.ok(), b.ok())));
+                    return;
+                }
+            }
+            // sensitivity to a datum == the spline solved on the corresponding unit data (a selection of data)
+            let mut sel = vec![0usize, 1, n / 2, n - 2, n - 1];
+            sel.dedup();
+            for j in sel {
+                let unit: Vec<f64> = (0..n).map(|i| if i == j { 1.0 } else { 0.0 }).collect();
+                let mut su = PPSpline::<f64>::new(k, t.clone(), None);
+                if su.csolve(&tau, &unit, ln, ln, false).is_err() {
+                    acc.violate("long/csolve/unexpected-error", idx, cj(), json!({"data": format!("unit{}", j)}), json!("Err"));
+                    return;
+                }
+                for x in pts.iter() {
+                    acc.evals_add(2);
+                    let want = su.ppdnev_single(x, 0).unwrap_or(f64::NAN);
+                    let g1 = sd.ppdnev_single(x, 0).map(|d| d.gradient1(vec![names[j].clone()])[0]).unwrap_or(f64::NAN);
+                    let g2 = sd2.ppdnev_single(x, 0).map(|d| d.gradient1(vec![names[j].clone()])[0]).unwrap_or(f64::NAN);
+                    if !close_scaled(g1, want, 1e-8, 1.0) || !close_scaled(g2, want, 1e-8, 1.0) {
+                        acc.violate("long/data-sensitivity", idx, cj(), json!({"x": x, "datum": j, "want": want}), json!([g1, g2]));
+                        return;
+                    }
+                }
+            }
+            // dual abscissa on the float spline: own first and second derivatives
+            for x in pts.iter() {
+                acc.eval();
+                let (s0, s1, s2) = (sf.ppdnev_single(x, 0).unwrap_or(f64::NAN), sf.ppdnev_single(x, 1).unwrap_or(f64::NAN), sf.ppdnev_single(x, 2).unwrap_or(f64::NAN));
+                let xd2 = Dual2::try_new(*x, vec!["x".to_string()], vec![1.5], vec![0.25]).unwrap();
+                match sf.ppdnev_single_dual2(&xd2, 0) {
+                    Ok(d) => {
+                        let gx = d.gradient1(vec!["x".to_string()])[0];
+                        let hx = d.gradient2(vec!["x".to_string()])[[0, 0]];
+                        let want_h = s2 * 2.25 + s1 * 0.5;
+                        if !close_scaled(d.real(), s0, 1e-9, 4.0) || !close_scaled(gx, 1.5 * s1, 1e-8, 16.0) || !close_scaled(hx, want_h, 1e-8, 64.0) {
+                            acc.violate("long/abscissa-sensitivity", idx, cj(), json!({"x": x, "want": [s0, 1.5 * s1, want_h]}), json!([d.real(), gx, hx]));
+                            return;
+                        }
+                    }
+                    Err(_) => {
+                        acc.violate("long/abscissa-sensitivity", idx, cj(), json!({"x": x}), json!("Err"));
+                        return;
+                    }
+                }
+            }
+            acc.outcome(&(k, m, hash_f64s(&sf.c().as_ref().unwrap().to_vec())));
+            acc.sample(cj);
+        }
         Case::Resolve { k, interior } => {
             let k = *k;
             let tr = knots(k, interior);
@@ -335,11 +508,26 @@ pub fn check(case: &Case, idx: u64, acc: &mut Acc) {
             natural.extend([4.0, 4.0]);
             let shifted: Vec<f64> = even.iter().enumerate().map(|(j, x)| if j == 0 || j == n - 1 { *x } else { x + 0.0625 }).collect();
             let y: Vec<f64> = (0..n).map(|j| gen_rat(j).f()).collect();
-            // (sites, left_n, right_n) steps
-            let mut steps: Vec<(&Vec<f64>, usize, usize)> = vec![(&even, 1, 1), (&even, 2, 2), (&even, 0, 0), (&even, 1, 2), (&shifted, 0, 0), (&even, 0, 0), (&even, 2, 1)];
-            if n >= 5 && k >= 3 {
-                steps.push((&natural, 2, 2));
-                steps.push((&natural, 1, 2));
+            // EVERY ordered pair of (sites, left_n, right_n) configurations from the menu {even, shifted, natural}
+            // x {0,1,2}^2 is walked as one chain on one object: the sequence visits every ordered pair once
+            // (de Bruijn-style walk: for each a, for each b: a, b)
+            let mut menu: Vec<(&Vec<f64>, usize, usize)> = vec![];
+            for sites in [&even, &shifted, &natural] {
+                if sites.len() != n || (std::ptr::eq(sites, &natural) && !(n >= 5 && k >= 3)) {
+                    continue;
+                }
+                for l in 0..k.min(3) {
+                    for r in 0..k.min(3) {
+                        menu.push((sites, l, r));
+                    }
+                }
+            }
+            let mut steps: Vec<(&Vec<f64>, usize, usize)> = vec![];
+            for a in menu.iter() {
+                for b in menu.iter() {
+                    steps.push(*a);
+                    steps.push(*b);
+                }
             }
             let mut reused = PPSpline::<f64>::new(k, t.clone(), None);
             let yd: Vec<Dual> = y.iter().enumerate().map(|(j, v)| Dual::new(*v, vec![format!("y{}", j)])).collect();
@@ -513,6 +701,11 @@ pub fn cases(tier: Tier) -> Vec<Case> {
             }
         }
     }
+    for k in 2..=4usize {
+        for m in [5usize, 13, 27, 28, 29, 30, 31, 32, 60] {
+            out.push(Case::Long { k, m });
+        }
+    }
     out
 }
 
@@ -535,7 +728,7 @@ pub fn run(ctx: &Ctx, replay_file: Option<String>) -> ! {
          Dual and Dual2 splines: first / second derivative of the spline as sensitivities (chain rule with a non-unit \
          gradient and a non-zero Hessian on the abscissa); 3x3 type table of mapped_value; count mismatches and \
          evaluation before solving are errors; one spline object solved repeatedly (same sites with different end \
-         conditions, then other sites) equals a fresh object solved once, bit for bit. Non-trivial: asymmetric end conditions or the natural layout.",
+         conditions, then other sites) equals a fresh object solved once, bit for bit. Long splines (orders 2..4 with 5, 13, 27..32, 60 interior integer knots, i.e. up to 64 basis functions; order 4 in the natural layout): the collocation matrix entry by entry against the single-function evaluators, reproduction of the polynomials of degree < k in value and every derivative, data reproduction and end conditions in all three number types with unit-vector sensitivities at the sites, data sensitivities against the float spline solved on unit data, Dual2 abscissa on the float spline (tolerance oracle, 1e-8). Non-trivial: asymmetric end conditions or the natural layout.",
         json!({"max_order": ctx.tier.pick(4, 6), "cases": cs.len()}),
     )
     .assume("exact rational B-spline model (harness/src/bspline.rs)");
